@@ -1,7 +1,7 @@
 (* Dispatch table: entry name -> model entry point.  The harness names the entry on every
    case line; the same table is used by the extracted driver and by the kernel cross-check. *)
 Require Import Gengo.Base.Str Gengo.Base.Sexp.
-Require Gengo.Model.Tags Gengo.Model.JsonTag Gengo.Model.Tracker Gengo.Model.Namer Gengo.Model.Order Gengo.Model.ImportBoss Gengo.Model.Exec Gengo.Model.Snippet Gengo.Model.Files.
+Require Gengo.Model.Tags Gengo.Model.JsonTag Gengo.Model.Tracker Gengo.Model.Namer Gengo.Model.Order Gengo.Model.ImportBoss Gengo.Model.Exec Gengo.Model.Snippet Gengo.Model.Files Gengo.Model.Universe.
 
 Definition entries : list (string * (sexp -> option sexp)) := [
   ("C08.old", Tags.run_old);
@@ -35,7 +35,8 @@ Definition entries : list (string * (sexp -> option sexp)) := [
   ("C15.args", Snippet.run_args);
   ("C09.assemble", Files.run_assemble_parts);
   ("C09.boilerplate", Files.run_boilerplate);
-  ("C10.step", Files.run_genverify)
+  ("C10.step", Files.run_genverify);
+  ("C01.universe", Universe.run_universe)
 ]%string.
 
 Fixpoint find_entry (name : str) (l : list (string * (sexp -> option sexp))) : option (sexp -> option sexp) :=
